@@ -92,3 +92,19 @@ Proof. reflexivity. Qed.
 Theorem filegroup_build_steps_ok :
   filegroup_build_steps = [FgSourceExists; FgSameHashKeep; FgRemoveAll; FgEnsureDir; FgLinkRecursively].
 Proof. reflexivity. Qed.
+
+(* ------------------------------------------------------------------------------------------ *)
+(* follow-up of the seeded mutations C02/m2, m3 *)
+
+(* the tools loop of sourceHash ranges over AllTools(): list-form tools followed by the dict-form (named) ones.
+   Model/Engine.v follows the regenerated accessor (Engine.hashed_tool_paths); with TAllTools every tool output is hashed *)
+Theorem source_hash_covers_named_tools :
+  source_hash_tools = TAllTools /\ Engine.hash_named_tools = true
+  /\ (forall r t, Engine.hashed_tool_paths r t = Engine.tool_paths r t).
+Proof. repeat split. Qed.
+
+(* outputHash re-hashes every output (recalc = true) on the single-output branch and in the loop; on the restore path the
+   outputs are hashed before the cache is asked and again after the retrieve (Model/C02.v, restore_trace) *)
+Theorem output_hash_always_recalculates :
+  output_hash_recalc_single = true /\ output_hash_recalc_each = true /\ restore_hashes_before_and_after = true.
+Proof. repeat split. Qed.
